@@ -17,6 +17,8 @@ var one = big.NewInt(1)
 
 const maxIntS = "9223372036854775807"
 
+var stdSizes = types.SizesFor("gc", "amd64")
+
 // ---------------------------------------------------------------------
 // Verification-condition context: an ordered list of declarations and
 // (already guarded) assumptions; an obligation refers to a prefix of it.
@@ -59,6 +61,7 @@ type VC struct {
 	recDefs  []string // define-fun-rec blocks (emitted before everything else)
 	recDone  map[string]bool
 	capture  *[]string
+	covers   []*Obl
 }
 
 func newVC(fn string) *VC {
@@ -366,12 +369,7 @@ func (x *Exec) defVal(name string, v *Val) *Val {
 
 func leafSortsV(v *Val) []string {
 	if v.Seq {
-		et := sliceElem(v.Ty)
-		es := leafSorts(et)
-		if len(es) != 1 {
-			panic("seq of composite elements unsupported")
-		}
-		return []string{arrSort(es[0]), sInt, sInt}
+		return seqSorts(sliceElem(v.Ty))
 	}
 	return leafSorts(v.Ty)
 }
@@ -406,6 +404,10 @@ func (x *Exec) typeFactsAt(t types.Type, L []string) {
 	case *types.Slice:
 		x.vc.assume(tAnd(tCmp("<=", "0", L[0]), tCmp("<=", "0", L[1]), tCmp("<=", "0", L[2]), tCmp("<=", L[2], L[3]),
 			tCmp("<=", tAdd(L[1], L[3]), maxIntS), tImp(tEq(L[0], "0"), tEq(L[3], "0"))))
+		// a backing array never exceeds the address space
+		if sz := stdSizes.Sizeof(u.Elem()); sz > 1 {
+			x.vc.assume(tCmp("<=", tMul(L[3], num(sz)), maxIntS))
+		}
 	case *types.Pointer, *types.Map, *types.Chan, *types.Signature, *types.Interface:
 		x.vc.assume(tCmp("<=", "0", L[0]))
 	case *types.Struct:
@@ -431,6 +433,13 @@ func (x *Exec) newRef(st *State) string {
 	x.vc.assume(tEq(r, tAdd(st.allocTop, "1")))
 	st.allocTop = r
 	return r
+}
+
+// bumpAllocTop: an unknown amount of allocation happened.
+func (x *Exec) bumpAllocTop(st *State) {
+	nt := x.vc.fresh("allocTop", sInt)
+	x.vc.assume(tCmp(">=", nt, st.allocTop))
+	st.allocTop = nt
 }
 
 // knownRef records that a reference value existed at this point.
